@@ -317,6 +317,29 @@ func lockStress(d time.Duration, seed int64) ([]string, int64) {
 					go func() { time.Sleep(time.Duration(rng.Intn(200)) * time.Microsecond); cancel() }()
 				}
 				atomic.AddInt64(&calls, 1)
+				if rng.Intn(3) == 0 {
+					// the same through Run: the section runs iff nil is returned, under mutual exclusion
+					ran := false
+					err := m.Run(ctx, key, func(context.Context) error {
+						ran = true
+						if n := atomic.AddInt32(&holders[k], 1); n != 1 {
+							note("%d callers are inside key %q at the same time (Run)", n, key)
+						}
+						if rng.Intn(2) == 0 {
+							time.Sleep(time.Duration(rng.Intn(50)) * time.Microsecond)
+						}
+						atomic.AddInt32(&holders[k], -1)
+						return nil
+					})
+					if (err == nil) != ran {
+						note("Run(%q) returned %v but its section ran = %v", key, err, ran)
+					}
+					if err != nil && ctx.Err() == nil {
+						note("Run(%q) failed (%v) although its context had not ended", key, err)
+					}
+					cancel()
+					continue
+				}
 				ok := m.Lock(ctx, key)
 				if !ok && ctx.Err() == nil {
 					note("Lock(%q) returned false although its context had not ended", key)
